@@ -12,14 +12,16 @@ import (
 // C04 — a utility ranking is exactly the order of the utilities (DESIGN.md 6.C04, A.1).
 
 // -1 and 0 are in the grid on purpose: a utility of exactly 0 (and tiers below it) is ordinary with cost criteria
-var c04Levels = []float64{0, 1, 2, 1 + 4e-9, 1 + 6e-9, -1}
+var c04Levels = []float64{0, 1, 0.7 + 1.4, 1 + 4e-9, 1 + 6e-9, -1, 2.1} // 0.7+1.4 = 2.0999999999999996 rounds to 2.1
 
 func c04LevelsFor(n int, thorough bool) []float64 {
 	switch {
-	case n <= 4:
+	case n <= 3:
 		return c04Levels
+	case n == 4:
+		return c04Levels[:6]
 	case n == 5 && thorough:
-		return c04Levels
+		return c04Levels[:6]
 	case n == 5:
 		return []float64{0, 1, 1 + 6e-9, -1}
 	default:
@@ -32,7 +34,7 @@ var utilMethods = []string{"weightedSum", "owa", "choquetIntegral"}
 func init() {
 	Register(&Property{
 		ID: "C04", Level: "exploration",
-		Rule: "E1 full product: every value function n alternatives -> {-1,0,1,2,1+4e-9,1+6e-9} for n<=4 (n=5: {-1,0,1,1+6e-9}; thorough n=5 full, n=6 {-1,0,1}) x " +
+		Rule: "E1 full product: every value function n alternatives -> {-1,0,1,1+4e-9,1+6e-9,0.7+1.4 (=2.0999999999999996),2.1} for n<=3, without 2.1 for n=4 (n=5: {-1,0,1,1+6e-9}; thorough n=5 full, n=6 {-1,0,1}) x " +
 			"every permutation of knownAlternatives x every permutation of choseToMake (independently for n<=3; n=4: all 24 of each combined with identity/same/last of the other, thorough all 576; rotations+reversal above; " +
 			"thorough all n! for n<=5) x {weightedSum,owa,choquetIntegral} x {all considered, one extra known alternative not considered}; " +
 			"plus the exported Ranking() on every weak order of 7 (thorough) / 6 (quick) alternatives. " +
